@@ -298,8 +298,8 @@ def gen_spec(rng, tmpl, opts=None):
             "blocks": blocks, "fill": fill, "fill_mixed": bool(fill and opts.get("fill_mixed"))}
 
 
-def approx_body_size(spec) -> int:
-    tmpl = DEFAULT_TEMPLATE_DICT[spec["name"]]
+def approx_body_size(spec, tmpl=None) -> int:
+    tmpl = tmpl or DEFAULT_TEMPLATE_DICT[spec["name"]]
     total = 4 + len(spec["extra"])
     for (bname, entries) in spec["blocks"]:
         if entries is None:
@@ -365,7 +365,7 @@ def limit_for_zerocode(rng, tmpl, opts, cap=0x2800, tries=8):
     (the cap itself is C03's subject, not C01's)."""
     for _ in range(tries):
         spec = gen_spec(rng, tmpl, opts)
-        if not (spec["flags"] & int(PacketFlags.ZEROCODED)) or approx_body_size(spec) <= cap:
+        if not (spec["flags"] & int(PacketFlags.ZEROCODED)) or approx_body_size(spec, tmpl) <= cap:
             return spec
         opts = dict(opts, max_var_len=64, small_block=0)
     spec["flags"] &= ~int(PacketFlags.ZEROCODED)
